@@ -701,6 +701,22 @@ def corpus():
             if r and r[0] == "unknown_key:" + want:
                 out.append(make_case(r[1], rng, "corpus:" + r[0]))
                 break
+    # every key that is valid SOMEWHERE in a document, planted in every kind of section (first section of that kind in
+    # the base document) with a value of the type it has where it is valid: `additive` in the root, `level` in an
+    # appender, `appenders` in a roller ...  The schema model says which of them are known where they stand.
+    elsewhere = {"additive": False, "appenders": ["f1"], "level": "info", "kind": "file", "path": "@D@/x.log",
+                 "pattern": "{m}{n}", "encoder": {"pattern": "{m}{n}"}, "filters": [], "limit": "1 kb", "count": 2,
+                 "base": 1, "target": "stdout", "tty_only": False, "append": True, "refresh_rate": "30 seconds",
+                 "root": {"level": "info"}, "loggers": {}, "policy": {}, "trigger": {"kind": "size", "limit": 5},
+                 "roller": {"kind": "delete"}, "interval": "1 day", "modulate": False, "max_random_delay": 0, "min_size": 1}
+    for want in SECTION_KINDS:
+        for key, val in elsewhere.items():
+            d = copy.deepcopy(base)
+            cands = [sec for k_, sec in sections(d) if k_ == want]
+            if not cands or key in cands[0]:
+                continue
+            cands[0][key] = copy.deepcopy(val)
+            out.append(make_case(d, rng, "corpus:key-valid-elsewhere:%s.%s" % (want, key)))
     d = copy.deepcopy(base)
     d["appenders"]["t1"] = {"kind": "rolling_file", "path": "@D@/t1.log",
                             "policy": {"trigger": {"kind": "time", "interval": 0, "modulate": True}, "roller": {"kind": "delete"}}}
